@@ -12,13 +12,13 @@
     prop:*  the property's own checker fails on what the implementation returned (no model). *)
 From Coq Require Import String Ascii.
 From Coq Require Import ZArith NArith List Bool.
-From PV Require Export Metadata.Address Metadata.Refs Corr.CorrBase.
+From PV Require Export Metadata.Address Metadata.Refs Metadata.RefsBytes Metadata.Utf8Name Corr.CorrBase.
 Import ListNotations.
 Open Scope string_scope.
 Open Scope list_scope.
 
 (** ** Address stream *)
-Definition bytes := list N.
+Notation bytes := (list N) (only parsing).
 (** byte strings are written by the harness as lists of Z literals *)
 Definition B (l : list Z) : bytes := map Z.to_N l.
 Definition ob_eqb (x y : option bytes) : bool := opt_eqb list_N_eqb x y.
@@ -126,6 +126,52 @@ Definition check_acons (u1 u2 name nh : bytes) (o : cobs) : list string :=
      tag (ob_eqb (c_rec_from_sess o) (c_record o)) "prop:record_from_session_agrees" ++
      tag (ob_eqb (c_rspec_from_cspec o) (c_rspec o)) "prop:record_spec_from_contract_spec_agrees").
 
+(** Addresses built from UUIDs and a UTF-8 name.  [trimmed] = strings.TrimSpace(name) and [norm] =
+    strings.ToLower(trimmed) as Go computed them, [nh] = sha256(norm)[:16].  TrimSpace is compared
+    with the complete model [trim_u]; the whole normal form with [normalize_u] wherever the name
+    stays inside the modelled part of unicode.ToLower; everything derived (addresses, parts,
+    parents, record <-> record-specification name hash) is checked on the observed normal form. *)
+Definition check_aconsu (u1 u2 name trimmed norm nh : bytes) (o : cobs) : list string :=
+  let h : bytes -> bytes := fun _ => nh in
+  let blank := match norm with [] => true | _ => false end in
+  let nonempty := match name with [] => false | _ => true end in
+  tag (list_N_eqb (trim_u name) trimmed) "corr:utf8_trim_space" ++
+  tag (match normalize_u name with Some n => list_N_eqb n norm | None => true end) "corr:utf8_normalize" ++
+  tag (list_N_eqb (scope_addr u1) (c_scope o)) "corr:scope_address" ++
+  tag (list_N_eqb (session_addr u1 u2) (c_session o)) "corr:session_address" ++
+  tag (ob_eqb (named_addr h TRecord u1 norm) (c_record o)) "corr:record_address" ++
+  tag (list_N_eqb (contract_spec_addr u2) (c_cspec o)) "corr:contract_spec_address" ++
+  tag (ob_eqb (named_addr h TRecordSpec u2 norm) (c_rspec o)) "corr:record_spec_address" ++
+  tag (ob_eqb (match scope_uuid (c_session o) with
+               | Some u => if nonempty then named_addr h TRecord u norm else None
+               | None => None end) (c_rec_from_sess o)) "corr:as_record_address" ++
+  tag (ob_eqb (match contract_spec_uuid (c_cspec o) with
+               | Some u => named_addr h TRecordSpec u norm
+               | None => None end) (c_rspec_from_cspec o)) "corr:as_record_spec_address" ++
+  (if blank then
+     tag (match c_record o, c_rspec o with None, None => true | _, _ => false end) "prop:blank_name_rejected"
+   else
+     tag (oparses_to (c_record o) (ARecord u1 nh)) "prop:record_parses_to_parts" ++
+     tag (oparses_to (c_rspec o) (ARecordSpec u2 nh)) "prop:record_spec_parses_to_parts" ++
+     tag (ob_eqb (c_scope_of_rec o) (Some (c_scope o))) "prop:record_scope_is_parent" ++
+     tag (ob_eqb (c_cspec_of_rspec o) (Some (c_cspec o))) "prop:record_spec_contract_spec_is_parent" ++
+     tag (ob_eqb (c_rec_from_sess o) (c_record o)) "prop:record_from_session_agrees" ++
+     tag (ob_eqb (c_rspec_from_cspec o) (c_rspec o)) "prop:record_spec_from_contract_spec_agrees" ++
+     tag (match c_record o, c_rspec o with
+          | Some r, Some sp => ob_eqb (name_hash_of r) (name_hash_of sp) && ob_eqb (name_hash_of r) (Some nh)
+          | _, _ => false end) "prop:record_and_record_spec_share_name_hash").
+
+(** two names and the normal forms Go computed: equal normal forms <-> equal record addresses *)
+Definition check_anames (u : bytes) (n1 norm1 n2 norm2 : bytes) (r1 r2 : option bytes) : list string :=
+  tag (match normalize_u n1, normalize_u n2 with
+       | Some a, Some b => Bool.eqb (list_N_eqb a b) (list_N_eqb norm1 norm2)
+       | _, _ => true end) "corr:utf8_same_normal_form" ++
+  match r1, r2 with
+  | Some a, Some b =>
+      tag (Bool.eqb (list_N_eqb norm1 norm2) (list_N_eqb a b)) "prop:same_name_same_record_address"
+  | _, _ => []
+  end.
+
 (** bech32 text handed to MetadataAddressFromBech32; [str] = String() of the result *)
 Definition check_atext (text : bytes) (res str : option bytes) : list string :=
   tag (ob_eqb (from_bech32 text) res) "corr:from_bech32" ++
@@ -152,7 +198,9 @@ Record obs := HO { o_ok : bool;
   l_ac : list (list Z);       (* per account: IterateContractSpecsForOwner *)
   l_sess : list (list Z);     (* per scope: IterateSessions(scope) -> session uuids *)
   l_rec : list (list Z);      (* per scope: IterateRecords(scope) -> names *)
-  l_rspec : list (list Z) }.  (* per contract spec: IterateRecordSpecsForContractSpec -> names *)
+  l_rspec : list (list Z);    (* per contract spec: IterateRecordSpecsForContractSpec -> names *)
+  o_locs : list (Z * Z);      (* IterateOSLocators: (account, uri), sorted *)
+  l_locsc : list (option (list (Z * Z))) }.  (* per scope: GetOSLocatorByScope, None = error *)
 
 Inductive case :=
 | ABytes (bz : bytes) (o : aobs)
@@ -164,7 +212,13 @@ Inductive case :=
 (** ConvertAndEncode(hrp, data) = enc; DecodeAndConvert(enc) = dec *)
 | AEnc (hrp data : bytes) (enc : option bytes) (dec : option (bytes * bytes))
 | ADec (text : bytes) (dec : option (bytes * bytes))
-| History (accts scope_ids sspec_ids cspec_ids : list Z) (steps : list (op * obs)).
+| AConsU (u1 u2 name trimmed norm nh : bytes) (o : cobs)
+| ANames (u n1 norm1 n2 norm2 : bytes) (r1 r2 : option bytes)
+| History (accts scope_ids sspec_ids cspec_ids : list Z) (steps : list (op * obs))
+(** the complete key set of the metadata KV store after a history, with the bytes every interned id
+    stands for; [g] = the history used no raw SetSession / SetRecord *)
+| Keys (g : bool) (scopes sess sspecs cspecs names accts denoms : list bytes) (ops : list op)
+       (keys : list bytes).
 
 (** sorting by a pair key *)
 Definition pair_ltb (a b : Z * Z) : bool :=
@@ -211,9 +265,13 @@ Definition model_obs (accts scope_ids sspec_ids cspec_ids : list Z) (st : state)
      l_ac := map (lookup (ix_ac st)) accts;
      l_sess := map (fun id => setz (map se_uuid (filter (fun s => se_scope s =? id) (sessions st)))) scope_ids;
      l_rec := map (fun id => setz (map r_name (filter (fun r => r_scope r =? id) (records st)))) scope_ids;
-     l_rspec := map (fun id => setz (map rs_name (filter (fun r => rs_cspec r =? id) (rspecs st)))) cspec_ids |}.
+     l_rspec := map (fun id => setz (map rs_name (filter (fun r => rs_cspec r =? id) (rspecs st)))) cspec_ids;
+     o_locs := sort_by (fun l => (fst l, 0)) (locs st);
+     l_locsc := map (locs_by_scope st) scope_ids |}.
 
 Definition llz_eqb := list_eqb lz_eqb.
+Definition zz_eqb (x y : Z * Z) : bool := (fst x =? fst y) && (snd x =? snd y).
+Definition lzz_eqb := list_eqb zz_eqb.
 
 Definition corr_step (m cur : obs) : list string :=
   tag (Bool.eqb (o_ok m) (o_ok cur)) "corr:accept" ++
@@ -231,7 +289,9 @@ Definition corr_step (m cur : obs) : list string :=
   tag (llz_eqb (l_ac m) (l_ac cur)) "corr:contract_specs_by_address" ++
   tag (llz_eqb (l_sess m) (l_sess cur)) "corr:sessions_of_scope" ++
   tag (llz_eqb (l_rec m) (l_rec cur)) "corr:records_of_scope" ++
-  tag (llz_eqb (l_rspec m) (l_rspec cur)) "corr:record_specs_of_contract_spec".
+  tag (llz_eqb (l_rspec m) (l_rspec cur)) "corr:record_specs_of_contract_spec" ++
+  tag (lzz_eqb (o_locs m) (o_locs cur)) "corr:os_locators" ++
+  tag (list_eqb (opt_eqb lzz_eqb) (l_locsc m) (l_locsc cur)) "corr:os_locators_by_scope".
 
 (** *** The property's checker, on the implementation's observations only *)
 Definition has_scope (o : obs) (id : Z) : bool := existsb (fun s => sc_id s =? id) (o_scopes o).
@@ -319,6 +379,31 @@ Definition p_listings (scope_ids cspec_ids : list Z) (o : obs) : list string :=
          (map (fun id => setz (map rs_name (filter (fun r => rs_cspec r =? id) (o_rspecs o)))) cspec_ids))
       "prop:record_specs_of_contract_spec_exact".
 
+(** specification references the code keeps intact (histories without the raw keeper writers
+    SetScope / SetScopeSpecification / SetRecordSpecification and the keeper's bare
+    RemoveContractSpecification): a stored scope's specification, the contract specifications a
+    scope specification lists, a record specification's contract specification are stored *)
+Definition has_sspec (o : obs) (id : Z) : bool := existsb (fun s => ss_id s =? id) (o_sspecs o).
+Definition has_cspec (o : obs) (id : Z) : bool := existsb (fun s => cs_id s =? id) (o_cspecs o).
+Definition p_spec_refs (o : obs) : list string :=
+  tag (forallb (fun s => has_sspec o (sc_spec s)) (o_scopes o)) "prop:scope_specification_of_scope_stored" ++
+  tag (forallb (fun s => forallb (has_cspec o) (ss_cspecs s)) (o_sspecs o)) "prop:contract_specs_of_scope_spec_stored" ++
+  tag (forallb (fun r => has_cspec o (rs_cspec r)) (o_rspecs o)) "prop:contract_spec_of_record_spec_stored".
+
+(** object store locators belong to accounts: no scope operation touches them, and the
+    per-scope listing is the locators of the scope's owners *)
+Definition p_locators (o : op) (prev cur : obs) : bool :=
+  match o with
+  | MBindLoc _ _ _ | MDelLoc _ | MModLoc _ _ => true
+  | _ => lzz_eqb (o_locs prev) (o_locs cur)
+  end.
+Definition p_locs_by_scope (scope_ids : list Z) (o : obs) : bool :=
+  list_eqb (opt_eqb lzz_eqb) (l_locsc o)
+    (map (fun id => match find (fun s => sc_id s =? id) (o_scopes o) with
+                    | None => None
+                    | Some sc => Some (flat_map (fun e => filter (fun l => fst l =? acct e) (o_locs o)) (sc_owners sc))
+                    end) scope_ids).
+
 (** ids are unique in every listing (listings are sorted by id) *)
 Fixpoint strictly_sorted (l : list (Z * Z)) : bool :=
   match l with
@@ -339,9 +424,10 @@ Definition obs_same (x y : obs) : bool :=
   list_eqb cspec_eqb (o_cspecs x) (o_cspecs y) && list_eqb rspec_eqb (o_rspecs x) (o_rspecs y) &&
   list_eqb nav_eqb (o_navs x) (o_navs y) &&
   llz_eqb (l_as x) (l_as y) && llz_eqb (l_ss x) (l_ss y) && llz_eqb (l_asp x) (l_asp y) &&
-  llz_eqb (l_cs x) (l_cs y) && llz_eqb (l_ac x) (l_ac y).
+  llz_eqb (l_cs x) (l_cs y) && llz_eqb (l_ac x) (l_ac y) && lzz_eqb (o_locs x) (o_locs y).
 
-Record item := { i_prev : obs; i_op : op; i_cur : obs; i_model : obs; i_guarded : bool }.
+Record item := { i_prev : obs; i_op : op; i_cur : obs; i_model : obs; i_guarded : bool;
+                 i_sguarded : bool }.
 
 Definition prop_step (accts scope_ids sspec_ids cspec_ids : list Z) (it : item) : list string :=
   let cur := i_cur it in
@@ -350,20 +436,48 @@ Definition prop_step (accts scope_ids sspec_ids cspec_ids : list Z) (it : item) 
   tag (p_last_record (i_prev it) (i_op it) cur) "prop:last_record_removes_session" ++
   p_indexes accts sspec_ids cspec_ids cur ++
   p_listings scope_ids cspec_ids cur ++
+  (if i_sguarded it then p_spec_refs cur else []) ++
+  tag (p_locators (i_op it) (i_prev it) cur) "prop:scope_operations_leave_locators" ++
+  tag (p_locs_by_scope scope_ids cur) "prop:locators_by_scope_are_the_owners" ++
   tag (p_unique cur) "prop:ids_unique" ++
   tag (o_ok cur || obs_same (i_prev it) cur) "prop:rejected_changes_nothing".
 
 Fixpoint items (accts scope_ids sspec_ids cspec_ids : list Z)
-    (st : state) (prev : obs) (g : bool) (steps : list (op * obs)) : list item :=
+    (st : state) (prev : obs) (g sg : bool) (steps : list (op * obs)) : list item :=
   match steps with
   | [] => []
   | (o, cur) :: rest =>
       let '(st', ok) := step st o in
       let g' := g && guarded o in
+      let sg' := sg && spec_guarded o in
       {| i_prev := prev; i_op := o; i_cur := cur;
-         i_model := model_obs accts scope_ids sspec_ids cspec_ids st' ok; i_guarded := g' |}
-      :: items accts scope_ids sspec_ids cspec_ids st' cur g' rest
+         i_model := model_obs accts scope_ids sspec_ids cspec_ids st' ok; i_guarded := g';
+         i_sguarded := sg' |}
+      :: items accts scope_ids sspec_ids cspec_ids st' cur g' sg' rest
   end.
+
+(** *** The key set of the store at byte level *)
+Definition lb_eqb := list_eqb list_N_eqb.
+Definition memb (k : bytes) (K : list bytes) : bool := existsb (list_N_eqb k) K.
+Definition len16 (l : list bytes) : bool := forallb (fun b => Nat.eqb (length b) 16) l.
+Definition last17 (k : bytes) : bytes := skipn (length k - 17) k.
+Definition check_keys (g : bool) (scopes sess sspecs cspecs names accts denoms : list bytes)
+    (ops : list op) (keys : list bytes) : list string :=
+  let e := env_of scopes sess sspecs cspecs names accts denoms in
+  tag (len16 scopes && len16 sess && len16 sspecs && len16 cspecs && len16 names) "corr:env_lengths" ++
+  tag (lb_eqb (sort_keys (store_keys e (run ops))) keys) "corr:store_keys" ++
+  (* the property on the store's own keys: the scope computed from a session / record key is a
+     stored scope key; a by-address / by-specification lookup key ends in a stored scope id *)
+  tag (negb g || forallb (fun k => match k with
+                          | 1%N :: _ => match as_scope_address k with Some p => memb p keys | None => false end
+                          | _ => true end) keys) "prop:session_key_embeds_stored_scope" ++
+  tag (negb g || forallb (fun k => match k with
+                          | 2%N :: _ => match as_scope_address k with Some p => memb p keys | None => false end
+                          | _ => true end) keys) "prop:record_key_embeds_stored_scope" ++
+  tag (forallb (fun k => match k with
+                         | 23%N :: _ | 17%N :: _ =>
+                             memb (last17 k) keys && is_type TScope (last17 k)
+                         | _ => true end) keys) "prop:scope_lookup_key_names_stored_scope".
 
 Definition check (c : case) : list string :=
   match c with
@@ -396,11 +510,15 @@ Definition check (c : case) : list string :=
           tag (ob_eqb (convert_and_encode hrp data) (Some (lower text))) "prop:bech32_decoded_reencodes"
       | None => []
       end
+  | AConsU u1 u2 name trimmed norm nh o => check_aconsu u1 u2 name trimmed norm nh o
+  | ANames u n1 norm1 n2 norm2 r1 r2 => check_anames u n1 norm1 n2 norm2 r1 r2
   | History accts scope_ids sspec_ids cspec_ids steps =>
       let o0 := model_obs accts scope_ids sspec_ids cspec_ids init true in
       first_failure
         (fun it => corr_step (i_model it) (i_cur it) ++ prop_step accts scope_ids sspec_ids cspec_ids it)
-        0%N (items accts scope_ids sspec_ids cspec_ids init o0 true steps)
+        0%N (items accts scope_ids sspec_ids cspec_ids init o0 true true steps)
+  | Keys g scopes sess sspecs cspecs names accts denoms ops keys =>
+      check_keys g scopes sess sspecs cspecs names accts denoms ops keys
   end.
 
 Definition check_all := check_list check.
